@@ -469,3 +469,104 @@ func MW[M ~map[K]V, K comparable, V any](m M, site int) M {
 	AccessMap(m, true, site)
 	return m
 }
+
+// ---------------------------------------------------------------- Cond
+
+// Cond is the shim of sync.Cond. Wait releases L, blocks until a Signal or
+// Broadcast wakes it (no spurious wake-ups: Go's Cond has none either), and
+// re-acquires L. Signal wakes the longest waiter, as the runtime's notify list does.
+type Cond struct {
+	L    Locker
+	real *sync.Cond
+}
+
+type condState struct {
+	id      int
+	waiters []*G
+	vc      VC
+}
+
+// NewCond is sync.NewCond.
+func NewCond(l Locker) *Cond { return &Cond{L: l, real: sync.NewCond(l)} }
+
+func (s *Sched) condOf(c *Cond) *condState {
+	if s.conds == nil {
+		s.conds = map[*Cond]*condState{}
+	}
+	st := s.conds[c]
+	if st == nil {
+		st = &condState{id: s.nobj}
+		s.nobj++
+		s.conds[c] = st
+	}
+	return st
+}
+
+// Wait is sync.Cond.Wait.
+func (c *Cond) Wait() {
+	s := S
+	if s == nil {
+		if c.real == nil {
+			c.real = sync.NewCond(c.L)
+		}
+		c.real.Wait()
+		return
+	}
+	st := s.condOf(c)
+	// enqueue first, then release the lock: a Signal issued after the Unlock must find this waiter
+	g := s.arrive(OpAtomic, st.id, 0)
+	s.record(g, false)
+	st.waiters = append(st.waiters, g)
+	c.L.Unlock()
+	// signalled between the enqueue and here (while releasing the lock)? then the waiter was already removed
+	for _, x := range st.waiters {
+		if x == g {
+			s.block(g)
+			break
+		}
+	}
+	if s.opt.Clocks {
+		g.clock.join(st.vc)
+	}
+	c.L.Lock()
+}
+
+// Signal is sync.Cond.Signal.
+func (c *Cond) Signal() { c.notify(false) }
+
+// Broadcast is sync.Cond.Broadcast.
+func (c *Cond) Broadcast() { c.notify(true) }
+
+func (c *Cond) notify(all bool) {
+	s := S
+	if s == nil {
+		if c.real == nil {
+			c.real = sync.NewCond(c.L)
+		}
+		if all {
+			c.real.Broadcast()
+		} else {
+			c.real.Signal()
+		}
+		return
+	}
+	if s.poison {
+		return
+	}
+	st := s.condOf(c)
+	g := s.arrive(OpAtomic, st.id, 0)
+	s.record(g, false)
+	if s.opt.Clocks {
+		st.vc.join(g.clock)
+	}
+	n := len(st.waiters)
+	if !all && n > 1 {
+		n = 1
+	}
+	for _, x := range st.waiters[:n] {
+		if x.state == gBlocked {
+			s.wakeG(x, g)
+		}
+	}
+	st.waiters = append([]*G(nil), st.waiters[n:]...)
+}
